@@ -128,9 +128,15 @@ def run_impl(case, collect_model_steps=True):
                     if os.path.exists(str(pth)) and h5py.is_hdf5(str(pth)):
                         held = h5py.File(str(pth), "r")
                 failed = False
+                mode_arg = st["mode"]
+                if st.get("mode_as") == "np.str_":
+                    import numpy as np
+                    mode_arg = np.str_(mode_arg)          # a numpy string (e.g. taken from an array of settings)
+                elif st.get("mode_as") == "str_subclass":
+                    mode_arg = type("Mode", (str,), {})(mode_arg)
                 try:
                     with common.quiet():
-                        emdfile.save(w.path(st["path"]), obj, mode=st["mode"], tree=st.get("tree", True),
+                        emdfile.save(w.path(st["path"]), obj, mode=mode_arg, tree=st.get("tree", True),
                                      emdpath=st.get("emdpath"))
                     obs.append({"ok": True})
                 except Exception as e:
